@@ -92,7 +92,7 @@ def parse():
                          z3.Implies(z3.Length(OLD) >= 2 + hl + 2, ex.seq(uraw, s) == z3.Extract(OLD, 2 + hl, 2 + uhl)))
         r.oblige(st, 'cover-normal-return', z3.BoolVal(nret > 0))
         return r.result()
-    return Scenario(label, SP + '.parse', gen, props=('C05', 'C08'))
+    return Scenario(label, SP + '.parse', gen, props=('C05', 'C08', 'C09'))
 
 
 def _mk_sp(f):
